@@ -6,6 +6,8 @@ import (
 	"go/token"
 	"go/types"
 	"strings"
+
+	"golang.org/x/tools/go/ssa"
 )
 
 func init() {
@@ -668,4 +670,147 @@ func ruleFrameStepOrder(p *Prog, r *Out) {
 		})
 	}
 	r.check(enc >= 0 && enc < wr && wr < sd, "HEADERS before DATA", p.pos(fr.Pos()), "encode < queue HEADERS < sendData", "finishRequest no longer encodes and queues the response HEADERS frame before it starts sending DATA")
+}
+
+func init() {
+	register(&Rule{
+		Name: "stop-channels-closed", Props: []string{"C17", "C10", "C12", "C09"}, Engine: "SSA", Floor: 3,
+		Doc: "every channel whose closing is what lets other goroutines give up is closed on every way out of the function that owns it: handlerStop when the stream loop ends (deferred, so that the return taken when the reader channel is closed is covered as well as break loop), writeStop right after the stream loop returns, done as the first effect of Conn.Close",
+		Run: ruleStopChannelsClosed,
+	})
+	register(&Rule{
+		Name: "validator-state-monotone", Props: []string{"C20", "C01", "C08"}, Engine: "AST", Floor: 5,
+		Doc: "the per-stream request-validation flags (pseudo-header seen, regular field seen) are cleared only when the stream object is initialised: they accumulate over all header blocks of a stream, so that a pseudo-header in a trailer block, after regular fields of the first block, is still refused (RFC 7540 s8.1.2.1)",
+		Run: ruleValidatorStateMonotone,
+	})
+}
+
+func ruleStopChannelsClosed(p *Prog, r *Out) {
+	type spec struct{ fn, owner, field, why string }
+	for _, s := range []spec{
+		{"(*serverConn).handleStreams", "serverConn", "handlerStop", "handlers that finish after the stream loop has gone park on handlerDone for ever once its buffer is full: a goroutine, a Stream and a RequestCtx leak per handler"},
+		{"(*Conn).Close", "Conn", "done", "Write, writeOut and the write loop select on done; if Close can leave without closing it they block for ever"},
+	} {
+		f := p.ssaFunc(s.fn)
+		if f == nil {
+			r.undecided(s.fn, "?", "no longer resolves")
+			continue
+		}
+		r.fn(s.fn)
+		var closes []ssa.Instruction
+		deferred := false
+		for _, b := range f.Blocks {
+			for _, in := range b.Instrs {
+				ci, ok := in.(ssa.CallInstruction)
+				if !ok || p.calleeName(ci.Common()) != "builtin.close" || len(ci.Common().Args) != 1 {
+					continue
+				}
+				if _, o, n, ok := p.loadOfField(ci.Common().Args[0]); ok && o == s.owner && n == s.field {
+					closes = append(closes, in)
+					if _, isDefer := in.(*ssa.Defer); isDefer {
+						deferred = true
+					}
+				}
+			}
+		}
+		key := s.fn + " closes " + s.owner + "." + s.field + " on every exit"
+		if len(closes) == 0 {
+			r.bad(key, p.pos(f.Pos()), s.fn+" never closes "+s.field+": "+s.why)
+			continue
+		}
+		// every return must be preceded by the close (a defer counts once it has been executed)
+		missing := ""
+		for _, b := range f.Blocks {
+			if b == f.Recover {
+				continue // go/ssa's synthetic block for a recovered panic
+			}
+			for _, in := range b.Instrs {
+				ret, ok := in.(*ssa.Return)
+				if !ok {
+					continue
+				}
+				covered := false
+				for _, c := range closes {
+					if instrDominates(c, ret) {
+						covered = true
+					}
+				}
+				// returns taken before the guard that makes the close unnecessary (Close called twice)
+				if !covered && s.fn == "(*Conn).Close" {
+					for _, ft := range p.factsAt(ret) {
+						if strings.Contains(p.vdescN(ft.Cond, 3), "atomic.CompareAndSwapUint64(") && !ft.Val {
+							covered = true
+						}
+					}
+				}
+				if !covered {
+					missing = p.ipos(ret)
+				}
+			}
+		}
+		_ = deferred
+		r.check(missing == "", key, p.ipos(closes[0]), "close dominates every return", fmt.Sprintf("%s can return (at %s) without having closed %s: %s", s.fn, missing, s.field, s.why))
+	}
+	// writeStop: closed unconditionally after handleStreams() in the goroutine that runs it
+	fd := p.decl("(*serverConn).Serve")
+	if fd == nil {
+		r.undecided("Serve", "?", "no longer resolves")
+		return
+	}
+	okk := false
+	ast.Inspect(fd.Body, func(n ast.Node) bool {
+		g, ok := n.(*ast.GoStmt)
+		if !ok {
+			return true
+		}
+		fl, ok := g.Call.Fun.(*ast.FuncLit)
+		if !ok {
+			return true
+		}
+		hs, cl := -1, -1
+		for i, s := range fl.Body.List {
+			if es, ok := s.(*ast.ExprStmt); ok {
+				if c, ok := es.X.(*ast.CallExpr); ok {
+					if p.calleeOf(c) == "(*serverConn).handleStreams" {
+						hs = i
+					}
+					if p.calleeOf(c) == "builtin.close" && len(c.Args) == 1 && p.isFieldSel(c.Args[0], "serverConn", "writeStop") {
+						cl = i
+					}
+				}
+			}
+		}
+		if hs >= 0 && cl > hs {
+			okk = true
+		}
+		return true
+	})
+	r.check(okk, "writeStop closed after the stream loop", p.pos(fd.Pos()), "handleStreams(); ...; close(writeStop) unconditionally", "the goroutine that runs the stream loop no longer closes writeStop unconditionally after it: the write loop never drains and stops, and the read loop's forward blocks")
+}
+
+func ruleValidatorStateMonotone(p *Prog, r *Out) {
+	fields := []string{"pseudoMethod", "pseudoScheme", "pseudoPath", "pseudoAuthority", "regularSeen"}
+	n := 0
+	for _, f := range p.Files {
+		pm := p.parentMaps()[f]
+		ast.Inspect(f, func(x ast.Node) bool {
+			as, ok := x.(*ast.AssignStmt)
+			if !ok || len(as.Lhs) != 1 || len(as.Rhs) != 1 {
+				return true
+			}
+			for _, fld := range fields {
+				if p.isFieldSel(as.Lhs[0], "Stream", fld) {
+					n++
+					fn := enclosingFunc(pm, as)
+					val := p.text(as.Rhs[0])
+					r.check(val == "true" || fn == "NewStream", fn+" stores "+fld+"="+val, p.pos(as.Pos()), "set to true, or cleared in NewStream only",
+						fmt.Sprintf("%s stores Stream.%s = %s: the flag is part of the request's validation state for the whole stream; clearing it anywhere but at stream initialisation (e.g. at the start of each header block) lets a trailer block carry what the first block would have been refused for (a pseudo-header after regular fields, a second :authority)", fn, fld, val))
+				}
+			}
+			return true
+		})
+	}
+	if n < 5 {
+		r.bad("validation flags are maintained", "?", fmt.Sprintf("only %d stores to the request-validation flags found", n))
+	}
 }
